@@ -62,7 +62,15 @@ pub fn gen_entries(rng: &Rng, max_files: usize) -> Entries {
         }
         let name = hostile_name(rng);
         let k = rng.range(1, if rng.chance(1, 10) { 30 } else { 5 });
-        let lines: BTreeSet<i32> = (0..k).map(|_| if rng.chance(1, 20) { rng.range(1, 99999) as i32 } else { rng.range(1, 400) as i32 }).collect();
+        let lines: BTreeSet<i32> = (0..k)
+            .map(|_| match rng.below(40) {
+                0 => rng.range(1, 99999) as i32,
+                1 => rng.range(1, 99999) as i32 * 21474,
+                2 => 0,
+                3 => -(rng.range(1, 400) as i32),
+                _ => rng.range(1, 400) as i32,
+            })
+            .collect();
         v.push((name, lines));
     }
     v
@@ -136,7 +144,13 @@ pub fn run_genreport(dir: &str, v: &[(&'static str, Entries)], o: &[(&'static st
     if !st.success() {
         return Err(format!("generate_report worker failed: {:?}", st));
     }
-    std::fs::read_to_string(format!("{}/solstat_report.md", dir)).map_err(|e| format!("no report file: {}", e))
+    match std::fs::read_to_string(format!("{}/solstat_report.md", dir)) {
+        Ok(t) => Ok(t),
+        // no file at all: for three empty maps that reads as an empty report here (whether a previous report
+        // must be replaced is C18's subject); with findings it is a missing report
+        Err(_) if v.is_empty() && o.is_empty() && q.is_empty() => Ok(String::new()),
+        Err(e) => Err(format!("REPORT-NOT-WRITTEN: {}", e)),
+    }
 }
 
 pub fn scratch_dir(tag: &str) -> String {
@@ -299,7 +313,12 @@ pub fn run(ctx: &Ctx) -> i32 {
         let text = match res {
             Ok(t) => t,
             Err(e) => {
-                acc.inconclusive(format!("generate_report helper: {}", e));
+                if e.starts_with("REPORT-NOT-WRITTEN") {
+                    acc.eval();
+                    acc.violation("report-not-written", json!({"v": map_json(&v), "o": map_json(&o), "q": map_json(&q), "detail": e}));
+                } else {
+                    acc.inconclusive(format!("generate_report helper: {}", e));
+                }
                 return;
             }
         };
